@@ -1522,6 +1522,13 @@ variant('b-aiohttp-client-no-type-filter', ['C12'], AIO,
         "                if msg.type == aiohttp.WSMsgType.BINARY:\n                    async for frame in self._frame_parser.receive_data(msg.data, 0):\n                        self._incoming_frame_queue.put_nowait(frame)",
         "                async for frame in self._frame_parser.receive_data(msg.data, 0):\n                    self._incoming_frame_queue.put_nowait(frame)",
         ('C12.h', 'TransportAioHttpClient.handle_incoming_ws_messages'))
+variant('b-channel-no-subscriber-stays-open', ['C10'], H + 'request_cahnnel_common.py',
+        "        else:\n            self.mark_completed_and_finish(received=True)", "        else:\n            pass",
+        ('C10.a', 'without a subscriber'))
+variant('b-drain-without-none-test', ['C11'], RB,
+        "        if frame.sent_future is not None and not frame.sent_future.done():\n            frame.sent_future.set_exception(RSocketProtocolError(ErrorCode.CONNECTION_ERROR",
+        "        if not frame.sent_future.done():\n            frame.sent_future.set_exception(RSocketProtocolError(ErrorCode.CONNECTION_ERROR",
+        ('C11.g', '_fail_unsent_frames'))
 variant('b-send-error-noop', ['C12'], RB,
         "        self.send_frame(exception_to_error_frame(stream_id, exception))",
         "        logger().error('error on stream %s: %s', stream_id, exception)", ('C12.b', 'RSocketBase.send_error'))
